@@ -3101,7 +3101,7 @@ fn script_wire(rng: &mut Rng, tier: Tier, f: &mut dyn FnMut(&str) -> String) {
 // profile 0: nc-regress — one fixed op list per repaired defect (deterministic, run on every check)
 // =============================================================================================
 
-const REGRESS_CASES: usize = 68;
+const REGRESS_CASES: usize = 70;
 
 fn regress_script(case: usize, f: &mut dyn FnMut(&str) -> String) {
     let mut rng = Rng::new(0xD1CE + case as u64);
@@ -3119,7 +3119,7 @@ fn regress_script(case: usize, f: &mut dyn FnMut(&str) -> String) {
     };
     let max = match case {
         7 | 19 | 22 | 37 => 1,
-        35 | 50 | 65 | 66 | 67 => 4,
+        35 | 50 | 65 | 66 | 67 | 69 => 4,
         13 => 3,
         _ => 2,
     };
@@ -5473,6 +5473,105 @@ fn regress_script(case: usize, f: &mut dyn FnMut(&str) -> String) {
             }
             look(&mut sc, 4);
         }
+        // a session whose client falls silent right after its Response was accepted (the server never hears a keep-alive:
+        // the client stays unconfirmed), token expiry (10 s) earlier than the time-out (15 s). The server is updated second
+        // by second past the expiry, its keep-alives are delivered: the session is in the table and in the lookups as
+        // long as the event stream says so; at 12 s the client speaks again: its payload is surfaced
+        68 => {
+            let mut spec = base_spec(rng, 99, proto, key, 5, &hosts);
+            spec.expire = 10;
+            spec.seal_expire = 10;
+            spec.timeout = 15;
+            spec.ud = vec![0x99; 256];
+            let Some(c) = new_client(&mut sc, 5, &a4(10, 9, 15, 1, 4931), &spec, 5_000_000) else { return };
+            if !fast_connect(&mut sc, &c) {
+                return;
+            }
+            sc.op("srv-dump 0");
+            for _ in 0..7 {
+                sc.op("srv-upd 0 1000000");
+                if let (_, Some(k)) = sc.opd("srv-updc 0 99") {
+                    let d = sc.hist[k].bytes.clone();
+                    sc.op(&format!("cli-rx 5 {}", hex(&d)));
+                }
+                sc.op("srv-q 0 99");
+                sc.op("srv-dump 0");
+            }
+            if let (_, Some(k)) = sc.opd("cli-pay 5 6c617465") {
+                let d = sc.hist[k].bytes.clone();
+                sc.op("note expect-payload");
+                sc.op(&format!("srv-rx 0 {} {}", c.addr, hex(&d)));
+            }
+            if let (_, Some(k)) = sc.opd("srv-pay 0 99 6f6b") {
+                let d = sc.hist[k].bytes.clone();
+                sc.op("note expect-payload");
+                sc.op(&format!("cli-rx 5 {}", hex(&d)));
+            }
+            sc.op("srv-q 0 99");
+            sc.op("srv-dump 0");
+        }
+        // ids 40 (slot 0) and 41 (slot 1) on a four-seat server; the server's last payload goes to 40; 40 leaves by its
+        // Disconnect datagram; id 93 joins (slot 0) and nobody is sent anything; id 40 comes back with a new token from a
+        // new address (slot 2); the server sends to 40, 93 and 41 in turn. Every datagram is handed to the client that
+        // lives at the address it was sent to: a payload is obtained only by the client it was generated for
+        69 => {
+            let mut more: Vec<Cl> = vec![];
+            for (j, id) in [(0u64, 93u64), (1, 40)] {
+                let mut spec = base_spec(rng, id, proto, key, 5, &hosts);
+                spec.expire = 35;
+                spec.seal_expire = 35;
+                spec.timeout = 5;
+                spec.ud = vec![0xd0 + j as u8; 256];
+                if let Some(c) = new_client(&mut sc, 5 + j, &a4(10, 9, 16, 1 + j as u8, 4941 + j as u16), &spec, 5_000_000) {
+                    more.push(c);
+                }
+            }
+            if more.len() < 2 || !fast_connect(&mut sc, &cls[0]) || !fast_connect(&mut sc, &cls[1]) {
+                return;
+            }
+            // handle by address (the first session of id 40 is gone by the time its second one exists)
+            let at: Vec<(String, u64)> = vec![(cls[1].addr.clone(), 1), (more[0].addr.clone(), 5), (more[1].addr.clone(), 6)];
+            if let (_, Some(k)) = sc.opd("srv-pay 0 41 4100") {
+                let d = sc.hist[k].bytes.clone();
+                sc.op("note expect-payload");
+                sc.op(&format!("cli-rx 1 {}", hex(&d)));
+            }
+            if let (_, Some(k)) = sc.opd("srv-pay 0 40 4000") {
+                let d = sc.hist[k].bytes.clone();
+                sc.op("note expect-payload");
+                sc.op(&format!("cli-rx 0 {}", hex(&d)));
+            }
+            if let (_, Some(k)) = sc.opd("cli-disc 0") {
+                let d = sc.hist[k].bytes.clone();
+                sc.op(&format!("srv-rx 0 {} {}", cls[0].addr, hex(&d)));
+            }
+            sc.op("srv-dump 0");
+            if !fast_connect(&mut sc, &more[0]) {
+                return;
+            }
+            sc.op("srv-dump 0");
+            if !fast_connect(&mut sc, &more[1]) {
+                return;
+            }
+            sc.op("note others-changed");
+            sc.op("srv-dump 0");
+            for (round, ids) in [[40u64, 93, 41], [40, 41, 93]].iter().enumerate() {
+                for id in ids {
+                    sc.op("note expect-up:other-session-lost");
+                    sc.op(&format!("srv-q 0 {}", id));
+                    let (out, e) = sc.opd(&format!("srv-pay 0 {} {:02x}{:02x}d0", id, *id as u8, round + 1));
+                    if let Some(k) = e {
+                        let d = sc.hist[k].bytes.clone();
+                        let to = toks(&out).get(1).map(|x| x.to_string()).unwrap_or_default();
+                        if let Some((_, h)) = at.iter().find(|(a, _)| *a == to) {
+                            sc.op("note expect-payload");
+                            sc.op(&format!("cli-rx {} {}", h, hex(&d)));
+                        }
+                    }
+                }
+            }
+            sc.op("srv-dump 0");
+        }
         // sequence 2^64-1 (the window's EMPTY sentinel) from the owner of a session
         _ => {
             fast_connect(&mut sc, &cls[0]);
@@ -5555,7 +5654,7 @@ fn regress_ops(case: usize) -> Vec<String> {
 /// To refresh after editing a script: `NC_FIXED_COUNTS=1 harness run --props C10 --profiles nc-regress,…` prints them.
 fn fixed_expected(tag: &str, case: usize) -> Option<usize> {
     const REGRESS: &[usize] = &[
-        30, 30, 30, 12, 16, 17, 24, 23, 30, 19, 21, 35, 33, 49, 551, 60, 85, 35, 50, 59, 69, 56, 43, 34, 26, 148, 104, 41, 49, 26, 44, 63, 36, 31, 38, 116, 26, 34, 70, 52, 541, 31, 42, 33, 30, 53, 52, 54, 103, 92, 63, 125, 32, 45, 68, 29, 129, 652, 675, 45, 50, 41, 52, 78, 50, 198, 198, 165,
+        30, 30, 30, 12, 16, 17, 24, 23, 30, 19, 21, 35, 33, 49, 551, 60, 85, 35, 50, 59, 69, 56, 43, 34, 26, 148, 104, 41, 49, 26, 44, 63, 36, 31, 38, 116, 26, 34, 70, 52, 541, 31, 42, 33, 30, 53, 52, 54, 103, 92, 63, 125, 32, 45, 68, 29, 129, 652, 675, 45, 50, 41, 52, 78, 50, 198, 198, 165, 61, 81,
     ];
     match tag {
         "regress" => REGRESS.get(case).copied(),
@@ -7875,6 +7974,14 @@ fn oracle_full_undisturbed(ops: &[String], outs: &[String]) -> Option<OracleFail
 ///   * `note expect-payload`: a fresh in-window genuine payload datagram handed to a session that the event stream still
 ///     shows connected is surfaced (the `genuine-not-surfaced` clause of the payload oracle).
 /// Traces without the mark are not judged.
+/// C11 ("a message sent to one client is obtained only by that client … a message a client sent is obtained only under
+/// that client's id"), at the netcode layer: the `surfaced-not-generated` clauses of the payload oracle — a client surfaces
+/// only payloads the server generated for ITS id in that very datagram, the server surfaces a datagram's payload only
+/// under the id of the client that generated it
+fn oracle_only_addressee(ops: &[String], outs: &[String]) -> Option<OracleFail> {
+    oracle_payloads_f(ops, outs, |sig| sig.starts_with("surfaced-not-generated"))
+}
+
 fn oracle_others_undisturbed(ops: &[String], outs: &[String]) -> Option<OracleFail> {
     let mark = ops.iter().position(|o| o == "note others-changed")?;
     let n = ops.len().min(outs.len());
@@ -9086,6 +9193,7 @@ fn oracles_main() -> Vec<Oracle> {
         Oracle { prop: "C10", name: "nc-connect-user-data", engines: &["nc-attacker", "nc-regress", "nc-handshake"], check: oracle_connect_user_data },
         Oracle { prop: "C10", name: "nc-full-server-sessions-undisturbed", engines: &["nc-regress"], check: oracle_full_undisturbed },
         Oracle { prop: "C11", name: "nc-other-clients-undisturbed", engines: &["nc-regress"], check: oracle_others_undisturbed },
+        Oracle { prop: "C11", name: "nc-only-the-addressee-obtains", engines: &["nc-regress"], check: oracle_only_addressee },
         Oracle { prop: "C04", name: "nc-window-once", engines: &["nc-window"], check: oracle_window_once },
         Oracle { prop: "C20", name: "nc-stale-handshake-harmless", engines: &["nc-attacker", "nc-regress"], check: oracle_stale_handshake_harmless },
         Oracle { prop: "C18", name: "nc-half-open-expiry", engines: &["nc-handshake", "nc-session", "nc-regress", "nc-failover", "nc-hostile", "nc-attacker", "nc-pending-full"], check: oracle_half_open_expiry },
